@@ -225,6 +225,21 @@ func genC03(r *vc.Run) {
 		}
 		keygenOracles(r, res, c.curve, c.t, vc.Line("keygen", args))
 	}
+	// a dealt share negated in transit (q - s: the mirrored point in every check that compares x coordinates only) must stop the run
+	for _, fr := range faultRunners() {
+		if fr.proto != "ecdsa_keygen" && fr.proto != "eddsa_keygen" {
+			continue
+		}
+		f := fault{fr.proto, "N1", "KGRound2Message1", "share", 0, "negate"}
+		res := runFault(fr, f, r.Seed+17)
+		r.Dist["negated-share/"+fr.proto]++
+		r.CountCase(f.String(), res.Applied > 0, fmt.Sprintf("%s => finished=%v culprits=%v", f.String(), res.Finished, res.Culprits))
+		if res.BadOutput != "" {
+			r.Violate("keygen-negated-share-accepted|"+fr.proto, "key generation completed with inconsistent key data although a dealt share was negated in transit: "+res.BadOutput, f.String())
+		} else if res.Applied > 0 && len(res.Culprits) == 0 {
+			r.Violate("keygen-negated-share-accepted|"+fr.proto, "a dealt share was negated in transit and nobody objected", f.String())
+		}
+	}
 }
 
 func checkEdDSAKeygenResult(r *vc.Run, rc *runCtx, cfg, schedName string) {
